@@ -186,27 +186,29 @@ func (db *DB) Delete(key []byte) {
 }
 
 func (db *DB) Get(key []byte) (kv.Entry, error) {
-	sstables := db.currentSSTables()
-	vhook.At("dkv.get.window", db)
-
 	// First try to get from the memtables
 	v, err := db.mtables.Get(key)
 	if err == nil {
 		return v, nil
 	}
+	vhook.At("dkv.get.window", db)
 
-	// Then try the SSTables
+	// Then try the SSTables. The level list must be read after the memtables: a
+	// flush that completes in between has moved its entries into this list.
 	if err == kv.ErrNotFound {
-		return sstables.Get(key)
+		return db.currentSSTables().Get(key)
 	}
 
 	return nil, err
 }
 
 func (db *DB) ScanPrefix(prefix []byte, errOut *error) iter.Seq[kv.Entry] {
-	sstables := db.currentSSTables()
+	// Snapshot the memtables before the level list: a flush that completes in
+	// between has moved its entries into the list read afterwards.
+	mtablesIter := db.mtables.ScanPrefix(prefix, errOut)
 	vhook.At("dkv.scan.window", db)
-	iters := []iter.Seq[kv.Entry]{db.mtables.ScanPrefix(prefix, errOut), sstables.ScanPrefix(prefix, errOut)}
+	sstables := db.currentSSTables()
+	iters := []iter.Seq[kv.Entry]{mtablesIter, sstables.ScanPrefix(prefix, errOut)}
 	// Drop deleted entries only after merging so that memtable deletes mask flushed puts
 	return func(yield func(kv.Entry) bool) {
 		for entry := range kv.MergeEntries(iters) {
